@@ -38,6 +38,13 @@ function parseJS(f) {
     try { opts.sourceType = opts.sourceType === 'module' ? 'script' : 'module'; res.comments = []; ast = acorn.parse(f.code, opts); }
     catch (e2) { res.ok = false; res.error = String(e.message); return res; }
   }
+  // esbuild's shim for require() in non-CommonJS output ("__require") may be renamed by the
+  // minifier: a variable whose initialiser contains the shim's error text is an alias of require
+  const requireNames = new Set(['require', '__require']);
+  walk.full(ast, (n) => {
+    if (n.type === 'VariableDeclarator' && n.id.type === 'Identifier' && n.init &&
+      f.code.slice(n.init.start, n.init.end).includes('Dynamic require of')) requireNames.add(n.id.name);
+  });
   walk.full(ast, (n) => {
     switch (n.type) {
       case 'ImportDeclaration':
@@ -62,10 +69,10 @@ function parseJS(f) {
       }
       case 'CallExpression': {
         const c = n.callee;
-        if (c.type === 'Identifier' && (c.name === 'require' || c.name === '__require') && n.arguments.length === 1) {
+        if (c.type === 'Identifier' && requireNames.has(c.name) && n.arguments.length === 1) {
           const s = litString(n.arguments[0]);
           if (s !== null) res.imports.push({ path: s, kind: 'require-call' });
-        } else if (c.type === 'MemberExpression' && !c.computed && c.object.type === 'Identifier' && (c.object.name === 'require' || c.object.name === '__require') &&
+        } else if (c.type === 'MemberExpression' && !c.computed && c.object.type === 'Identifier' && requireNames.has(c.object.name) &&
           c.property.name === 'resolve' && n.arguments.length === 1) {
           const s = litString(n.arguments[0]);
           if (s !== null) res.imports.push({ path: s, kind: 'require-resolve' });
